@@ -96,28 +96,29 @@ type Interp struct {
 	runtimeErrorType types.Type
 
 	// per-path state
-	path    *pathState
-	undo    []undoEntry
-	logging bool
-	steps   int64
-	stubs   map[string]value
-	clock   *Term
-	nclock  int
+	path       *pathState
+	undo       []undoEntry
+	logging    bool
+	steps      int64
+	allocCells int64
+	stubs      map[string]value
+	clock      *Term
+	nclock     int
 
 	// threads
-	threads  []*thread
-	cur      *thread
-	symSched bool
-	switches     int
+	threads       []*thread
+	cur           *thread
+	symSched      bool
+	switches      int
 	preemptBudget int // >0: preemption-bounded scheduling (rt.PreemptBound)
-	pendingAbort *pathAbort
-	mutexes      map[*value]*mstate
-	exp          *explorer
-	ld           *Loaded
-	curFr        *frame
-	initErr      map[*ssa.Package]string
-	bypass       *ssa.Function // the intrinsic of this function is skipped (engine calls the real body)
-	inputSeq     map[string]int
+	pendingAbort  *pathAbort
+	mutexes       map[*value]*mstate
+	exp           *explorer
+	ld            *Loaded
+	curFr         *frame
+	initErr       map[*ssa.Package]string
+	bypass        *ssa.Function // the intrinsic of this function is skipped (engine calls the real body)
+	inputSeq      map[string]int
 
 	errorStringPtr types.Type
 	wrapErrorPtr   types.Type
@@ -421,6 +422,7 @@ func (i *Interp) visitInstr(fr *frame, instr ssa.Instruction) continuation {
 		if c > 1<<24 {
 			i.unsupported("makeslice of %d elements", c)
 		}
+		i.chargeAlloc(int(c))
 		s := make([]value, c)
 		tElt := instr.Type().Underlying().(*types.Slice).Elem()
 		z := zero(tElt)
@@ -859,7 +861,7 @@ func (i *Interp) checkInitOK(pkg *ssa.Package) {
 }
 
 func isOpaquePath(path string) bool {
-	for _, p := range []string{"crypto/", "internal/", "hash/", "vendor/golang.org/x/crypto","modernc.org/", "github.com/mattn/go-sqlite3", "golang.org/x/sys", "github.com/creack/pty", "github.com/fsnotify"} {
+	for _, p := range []string{"crypto/", "internal/", "hash/", "vendor/golang.org/x/crypto", "modernc.org/", "github.com/mattn/go-sqlite3", "golang.org/x/sys", "github.com/creack/pty", "github.com/fsnotify"} {
 		if strings.HasPrefix(path, p) {
 			return true
 		}
